@@ -17,7 +17,8 @@ Definition bi_step (s : step) : Prop :=
 (* the rest: requests name built-ins (live or not) or names that no call of the history registers *)
 Definition user_step (s : step) : Prop :=
   st_builtin s = false /\ tgt (st_before s) /\ tgt (st_after s)
-  /\ (st_matched s = true -> In (st_name s) MN).
+  /\ (st_matched s = true -> In (st_name s) MN)
+  /\ (st_kind s = KRegister -> ~ In (st_name s) BN).   (* a removed built-in name is not taken by a user callback *)
 
 Lemma dom_parts : forall r i s,
   r_dom (ref_apply r i s) = true -> r_dom r = true /\ builtin_ok r s = true.
@@ -74,10 +75,10 @@ Proof.
       - exact Hnb.
       - intros e He. destruct (Hhid e He) as (c & Hl & Hh). exists c. now rewrite <- Hcs. }
   intros Hdom Kn Kf Kd Ku Rel'. cbn in Hdom. rewrite !andb_true_iff, negb_true_iff, !orb_false_iff in Hdom.
-  destruct Hdom as (_ & (_ & _) & Hmem). apply mem_false in Hmem.
+  destruct Hdom as (_ & (_ & _) & Hmem).
   set (n := st_name s) in *. set (c := mk_cb n (st_before s) (st_after s) false false true i) in *.
   assert (Hfresh : ~ In n (map cb_name (p_cs p))).
-  { intro H. apply Hmem. eapply live_names_used; eauto. }
+  { intro H. apply (rel_names _ _ R) in H. apply is_live_true in H. congruence. }
   assert (Hhid' : forall cs', cs' = p_cs p ->
             forall e, In e (r_live r ++ [mk_entry n (st_before s) (st_after s) i i (st_builtin s)]) ->
             exists x, last_named (cs' ++ [c]) (e_name e) = Some x /\ cb_hid x = e_hid e).
@@ -86,7 +87,7 @@ Proof.
       + apply String.eqb_eq in Eq. exfalso. apply Hfresh. apply (rel_names _ _ R). rewrite Eq. apply in_map, He.
       + apply Hhid, He.
     - cbn. rewrite String.eqb_refl. eauto. }
-  destruct Hs as [(Hb & _ & Hbf & Haf & Hbn)|((Hb & Tb & Ta & Hmn) & HBNu)].
+  destruct Hs as [(Hb & _ & Hbf & Haf & Hbn)|((Hb & Tb & Ta & Hmn & Hnbn) & HBNu)].
   - (* a built-in registration: no user call yet, U = [] *)
     unfold builtin_ok in Hbok. rewrite Hb in Hbok. cbn in Hbok. rewrite !andb_true_iff, negb_true_iff in Hbok.
     destruct Hbok as (((Hnu & _) & _) & _). specialize (HU0 Hnu). subst U. rewrite app_nil_r in Hcs.
@@ -119,7 +120,7 @@ Proof.
     + intros e He Heb. apply in_app_iff in He. destruct He as [He|[<-|[]]].
       * destruct (Hnb e He Heb) as (HnoBN & pre & c0 & post & E & Hrest). split; [exact HnoBN|].
         exists pre, c0, (post ++ [c]). split; [rewrite E, <- app_assoc; reflexivity|exact Hrest].
-      * cbn. split; [intro H; apply Hmem, HBNu, H|].
+      * cbn. split; [exact (Hnbn Hk)|].
         exists U, c, []. split; [reflexivity|]. split; [reflexivity|]. split; [|split; reflexivity].
         intro H. apply Hfresh. rewrite Hcs, map_app. apply in_app_iff. right. exact H.
     + rewrite app_assoc. apply Hhid'. symmetry. exact Hcs.
